@@ -260,3 +260,7 @@ def strategy(tier):
 
 def n_random(tier):
     return 6400 if tier == "quick" else 120000
+
+
+def files(case):
+    return {"main.ms": ms.program(PRELUDE + [("print", S("@start"))] + case["stmts"] + [("print", S("@end"))])[0]}
